@@ -96,7 +96,8 @@ ByteLen(cs) == IF cs = <<>> THEN 0 ELSE Width(Head(cs)) + ByteLen(Tail(cs))
 \*   "p_a"   ^a        "p_b"   b$        "p_ab"  ^[ab]*$       "p_2"   ^.{2}$
 \*   "p_pct" ^[ab%]*$  (= p_ab on the alphabet; a '%' in the pattern text)
 \*   "p_esc" ^\x61+$   (one or more "a"; a backslash escape in the pattern text)
-PatIds == {"p_a", "p_b", "p_ab", "p_2", "p_pct", "p_esc"}
+\*   "p_lit" ^ab$      (a literal anchored on both sides: equality)      "p_sub" ab   (a bare literal: substring)
+PatIds == {"p_a", "p_b", "p_ab", "p_2", "p_pct", "p_esc", "p_lit", "p_sub"}
 PatMatch(p, cs) ==
   CASE p = "p_a"  -> cs # <<>> /\ cs[1] = "a"
     [] p = "p_b"  -> cs # <<>> /\ cs[Len(cs)] = "b"
@@ -104,6 +105,8 @@ PatMatch(p, cs) ==
     [] p = "p_2"  -> Len(cs) = 2
     [] p = "p_pct" -> \A i \in DOMAIN cs : cs[i] \in {"a", "b"}
     [] p = "p_esc" -> cs # <<>> /\ \A i \in DOMAIN cs : cs[i] = "a"
+    [] p = "p_lit" -> cs = <<"a", "b">>
+    [] p = "p_sub" -> \E i \in 1..(Len(cs) - 1) : cs[i] = "a" /\ cs[i + 1] = "b"
     [] p = "p_qt"  -> cs = <<"qt", "a", "qt">>
     [] p = "p_bt"  -> cs = <<"a", "bt", "b">>
     [] p = "p_cls" -> \E n \in 1..Len(cs) : /\ \A i \in 1..n : cs[i] \in {"a", "b", "d1", "us"}
